@@ -1,9 +1,9 @@
 // qxv muc — drives a real QXmppClient + QXmppDiscoveryManager + QXmppMucManager with two managed
 // rooms (r1, r2) along behaviours of spec/Muc.tla (extension `muc`).
 //
-// The client is the in-memory TestClient of fixture.h.  Its socket is connected to a mute TCP sink
-// on 127.0.0.1 so that QXmppClient::sendPacket() reports success (QXmppMucRoom::requestPermissions
-// stops after the first request otherwise); nothing is ever read from or answered on that socket.
+// The client is the in-memory TestClient of fixture.h.  Its socket is given one end of a socketpair
+// so that QXmppClient::sendPacket() reports success (QXmppMucRoom::requestPermissions stops after
+// the first request otherwise); nothing is ever read from or answered on that socket.
 // Everything the MUC service "sends" is injected through the real receive path
 // (QXmppOutgoingClient::handlePacketReceived); the session events are the two signals
 // QXmppOutgoingClient emits in openSession()/closeSession() (connected / disconnected), which is
@@ -16,7 +16,6 @@
 // read from the public getters after the step, from the signals of the rooms / the manager during
 // the step (emission order) and from the stanzas the client wrote during the step.
 #include "fixture.h"
-#include "loopback.h"
 #include "qxv.h"
 
 #include "QXmppDataForm.h"
@@ -25,10 +24,10 @@
 #include "QXmppMucManager.h"
 #include "QXmppUtils.h"
 
-#include <QTcpServer>
-#include <QTcpSocket>
-
 #include <memory>
+
+#include <sys/socket.h>
+#include <unistd.h>
 
 namespace {
 
@@ -72,7 +71,7 @@ struct RoomRig {
 struct Env {
     std::unique_ptr<TestClient> c;
     QXmppMucManager *mgr = nullptr;
-    QTcpSocket *peer = nullptr;
+    int peerFd = -1;
     QVector<RoomRig *> rooms;
     QStringList msig;
     QMap<QString, QString> permId;  // "r1:owner" -> id of the latest request
@@ -83,10 +82,8 @@ struct Env {
     {
         c.reset();
         qDeleteAll(rooms);
-        if (peer) {
-            peer->disconnect();
-            peer->abort();
-            peer->deleteLater();
+        if (peerFd >= 0) {
+            ::close(peerFd);
         }
     }
 
@@ -102,7 +99,7 @@ struct Env {
         return "?" + occupantJid;
     }
 
-    void start(QTcpServer &sink)
+    void start()
     {
         TestClient::resetIdCounter();
         c = std::make_unique<TestClient>(TestClient::NoExtensions, kOwnFull);
@@ -144,20 +141,19 @@ struct Env {
                 rr->sig << s;
             });
         }
-        // a connected socket nobody answers on
-        auto &cfg = c->configuration();
-        cfg.setHost(QStringLiteral("127.0.0.1"));
-        cfg.setPort(sink.serverPort());
-        cfg.setStreamSecurityMode(QXmppConfiguration::TLSDisabled);
-        cfg.setAutoReconnectionEnabled(false);
-        cfg.setKeepAliveInterval(0);  // no ping timers: nothing in a trace depends on time
-        c->connectToServer(cfg);
-        if (!qxvSpin([&] { return sink.hasPendingConnections() && c->stream()->socket()->state() == QAbstractSocket::ConnectedState; }, 5000)) {
-            fprintf(stderr, "muc: loopback sink connection not established\n");
+        // a connected socket nobody answers on: one end of a socketpair (no TCP connection per
+        // execution, hence no TIME_WAIT entries and no dependence on free loopback ports)
+        int fds[2];
+        if (::socketpair(AF_UNIX, SOCK_STREAM, 0, fds) != 0) {
+            fprintf(stderr, "muc: socketpair failed\n");
             exit(2);
         }
-        peer = sink.nextPendingConnection();
-        QObject::connect(peer, &QTcpSocket::readyRead, peer, [p = peer] { p->readAll(); });
+        peerFd = fds[1];
+        if (!c->stream()->socket()->setSocketDescriptor(fds[0], QAbstractSocket::ConnectedState) ||
+            c->stream()->socket()->state() != QAbstractSocket::ConnectedState) {
+            fprintf(stderr, "muc: the client socket does not accept the socketpair descriptor\n");
+            exit(2);
+        }
         c->fakeSession(true, false);
         if (!c->isConnected()) {
             fprintf(stderr, "muc: client does not consider itself connected\n");
@@ -278,12 +274,12 @@ QString itemAttrs(const QString &cls)
 
 QString status(int code) { return QStringLiteral("<status code='%1'/>").arg(code); }
 
-void runBehaviour(Ctx &ctx, QTcpServer &sink, const QString &caseId, const QJsonArray &steps)
+void runBehaviour(Ctx &ctx, const QString &caseId, const QJsonArray &steps)
 {
     ctx.reset(caseId);
     ctx.out.flush();  // a crash inside the library must not lose the executions already recorded
     Env e;
-    e.start(sink);
+    e.start();
     const QString to = QStringLiteral(" to='%1'").arg(kOwnFull);
     for (const auto &sv : steps) {
         const auto s = sv.toObject();
@@ -436,15 +432,10 @@ void runBehaviour(Ctx &ctx, QTcpServer &sink, const QString &caseId, const QJson
 
 QXV_DRIVER(muc)
 {
-    QTcpServer sink;
-    if (!sink.listen(QHostAddress::LocalHost, 0)) {
-        fprintf(stderr, "muc: cannot listen on loopback\n");
-        return 2;
-    }
     auto behs = ctx.behaviours();
     int n = 0;
     for (const auto &bv : behs) {
-        runBehaviour(ctx, sink, QString("m%1").arg(++n), bv.toObject()["steps"].toArray());
+        runBehaviour(ctx, QString("m%1").arg(++n), bv.toObject()["steps"].toArray());
     }
     return 0;
 }
